@@ -282,7 +282,7 @@ def run_case(case):
         raise core.Violation("output is not the input records plus bo/sn/iv: expected-but-missing %r, unexpected %r"
                              % (missing, extra))
     cl = classes_of(case, nodes, exp) + (["graph_tagged_by_order_gfa"] if pipeline else [])
-    if case.get("via") == "cli" and not case["bgzip_out"] and len(lines) <= 25:
+    if case.get("via") == "cli" and not case["bgzip_out"] and (len(lines) <= 25 or case.get("stdout_too")):
         # the documented default: without --outgaf the sorted records go to standard output
         with core.workdir() as d:
             core.write_text(d + "/g.gfa", case["gfa"])
@@ -317,3 +317,16 @@ def enumerations(tier, shard, nshards):
                "tag_with_order_gfa": False}
 
     yield ("%s records drawn from the near-tie pool" % ("100 003" if tier == "quick" else "500 001"), big(), True)
+
+    def chunks():
+        # record counts at which chunked writers change behaviour (0, 4096, 8192), to a file and to standard output
+        import random
+
+        rnd = random.Random(10)
+        for n in (0, 4096, 8192):
+            order = [rnd.randrange(len(c08.POOL)) for _ in range(n)]
+            gaf = [c08.POOL[k].replace("p%d\t" % k, "c%d\t" % i, 1) for i, k in enumerate(order)]
+            yield {"gfa": c08.POOL_GFA, "gaf": gaf, "bgzf": None, "bgzip_out": False, "final_newline": True, "outind": False, "via": "cli",
+                   "tag_with_order_gfa": False, "stdout_too": True}
+
+    yield ("0, 4096 and 8192 records sorted to a file and to standard output", chunks(), True)
